@@ -34,6 +34,7 @@ type VfStore struct {
 	Faulted bool
 	Hook    func(kind, name string) // optional interference window, called at the start of every API call
 	Tick    func(kind, name string) error // if set, replaces the built-in fault counter (shared fault budget of a larger world)
+	Observe func(kind string, old, new *v1alpha1.FloatingIP) // called right before an effective create/update/delete
 }
 
 func VfNewStore() *VfStore { return &VfStore{Objs: map[string]*v1alpha1.FloatingIP{}} }
@@ -100,6 +101,9 @@ func (f *vfFIPs) Create(ctx context.Context, obj *v1alpha1.FloatingIP, opts meta
 	if _, ok := f.Store.Objs[obj.Name]; ok {
 		return nil, apierrors.NewAlreadyExists(vfGR, obj.Name)
 	}
+	if f.Store.Observe != nil {
+		f.Store.Observe("create", nil, obj)
+	}
 	f.Store.Objs[obj.Name] = vfCopy(obj)
 	return vfCopy(obj), nil
 }
@@ -108,8 +112,12 @@ func (f *vfFIPs) Update(ctx context.Context, obj *v1alpha1.FloatingIP, opts meta
 	if err := f.Store.fault("update", obj.Name); err != nil {
 		return nil, err
 	}
-	if _, ok := f.Store.Objs[obj.Name]; !ok {
+	old, ok := f.Store.Objs[obj.Name]
+	if !ok {
 		return nil, apierrors.NewNotFound(vfGR, obj.Name)
+	}
+	if f.Store.Observe != nil {
+		f.Store.Observe("update", old, obj)
 	}
 	f.Store.Objs[obj.Name] = vfCopy(obj)
 	return vfCopy(obj), nil
@@ -119,8 +127,12 @@ func (f *vfFIPs) Delete(ctx context.Context, name string, opts metav1.DeleteOpti
 	if err := f.Store.fault("delete", name); err != nil {
 		return err
 	}
-	if _, ok := f.Store.Objs[name]; !ok {
+	old, ok := f.Store.Objs[name]
+	if !ok {
 		return apierrors.NewNotFound(vfGR, name)
+	}
+	if f.Store.Observe != nil {
+		f.Store.Observe("delete", old, nil)
 	}
 	delete(f.Store.Objs, name)
 	return nil
